@@ -398,3 +398,36 @@ pub fn fam_triples(b: &Base, protect_handshake: bool, max_slots: usize, out: &mu
         }
     }
 }
+
+/// one-way link failure: from the idx-th datagram of a direction on, everything in that direction is lost
+/// (the other direction keeps working, so the peer keeps retransmitting into the void)
+pub fn fam_blackhole(b: &Base, out: &mut Vec<CaseSpec>) {
+    for (dir, cnt, dn) in [(Dir::W2P, b.n_w2p, "w2p"), (Dir::P2W, b.n_p2w, "p2w")] {
+        for idx in 0..=cnt {
+            for (tp, tn) in [(T, "Tp=T"), (T / 2, "Tp=T/2"), (T + T / 2, "Tp=1.5T")] {
+                out.push(with(b, "blackhole", format!("{dn}#{idx}:{tn}"), |s| {
+                    s.peer.timer_ns = tp;
+                    s.rules.push(Rule::DropFrom { dir, idx });
+                }));
+            }
+        }
+    }
+}
+
+/// a volley of 6..8 duplicate / stale ACKs in a row while a window is outstanding, after which the client's real
+/// ACK arrives: the transfer must neither retransmit on them nor abort (sender role)
+pub fn fam_stale_volley(b: &Base, out: &mut Vec<CaseSpec>) {
+    for burst in 0..b.n_bursts {
+        for d in 0..=1i64 {
+            for n in [6u64, 8] {
+                for (gap, gn) in [(1000u64, "1us"), (T / 10, "0.1T")] {
+                    out.push(with(b, "stalevolley", format!("burst{burst}:{n}xack-{d}:{gn}"), |s| {
+                        for k in 0..n {
+                            s.rules.push(Rule::InjectAfterBurst { burst, offset: 1000 + k * gap, stray: Stray::AckRel(-d), suppress: k == 0, suppress_for: n * gap + 2000 });
+                        }
+                    }));
+                }
+            }
+        }
+    }
+}
